@@ -1,5 +1,7 @@
 import Secp.Proofs.Sswu
-import Secp.Proofs.Encode
+import Secp.Proofs.AffPt
+import Secp.Proofs.LimbGroup
+import Secp.Proofs.FieldConv
 import Secp.Proofs.SqrtConstsLimb
 /-!
 # `IsogenySecp256k13iso ∘ SSWU` at the limb implementation is RFC 9380 `map_to_curve` for secp256k1 (C11)
